@@ -41,7 +41,7 @@ def main():
     tmpdemo = os.path.join(wt, '_demo.py')
     shutil.copy(demo, tmpdemo)
     import re
-    text = re.sub(r'/tmp/seed\d?_C\d\d', wt, open(tmpdemo).read())
+    text = re.sub(r'/tmp/seed\d*_C\d\d', wt, open(tmpdemo).read())
     open(tmpdemo, 'w').write(text)
     rc0, out0 = sh(['/venv/bin/python', tmpdemo], cwd=wt, timeout=300)
     meta['demo_without_change_rc'] = rc0
